@@ -87,6 +87,41 @@ def run_compdec(sx, cfg, env):
     sx.require(True, "returns-or-decode-error")
     sx.observe("outcome", "returned")
     sx.observe("keys", sorted(res.keys()))
+    if cfg["what"] != "request":
+        return
+    # "never completed with invented values": every returned interpretation must be justified by
+    # the bytes - laying the returned values out with the reference gives the message back on all
+    # described bits, and needs no more bytes than the message has
+    from models import odxref
+    spec = env["spec"]
+    try:
+        rp = odxref.Pdu()
+        renv = {"const_bits": {}}
+        _cp.ref_params(rp, 0, 0, spec["params"], _plain(res), True, renv)
+    except (odxref.Reject, KeyError, TypeError, IndexError, AttributeError, ValueError):
+        sx.cover("reference-cannot-lay-out")
+        return
+    if rp.overlap or cfg["name"] in ("overlap",):
+        return
+    sx.cover("justified")
+    sx.require(len(rp.bytes) <= len(msg), "returned-values-need-no-more-bytes-than-the-message-has")
+    for i in range(min(len(rp.bytes), len(msg))):
+        # a coded constant that does not match only warns in odxtools: constants are not compared
+        m = rp.mask[i] & ~renv["const_bits"].get(i, 0) & 0xFF
+        if m:
+            sx.require((msg[i] & m) == (rp.bytes[i] & m), "returned-values-are-what-the-bytes-say")
+
+
+def _plain(v):
+    if hasattr(v, "trouble_code"):
+        return v.trouble_code
+    if isinstance(v, dict):
+        return {k: _plain(x) for k, x in v.items()}
+    if isinstance(v, tuple):
+        return tuple(_plain(x) for x in v)
+    if isinstance(v, list):
+        return [_plain(x) for x in v]
+    return v
 
 
 def build_somersault(cfg):
@@ -155,6 +190,8 @@ def configs(tier, seed):
     for what, table in (("request", _cp.COMPOSITES), ("response", _cp.RESPONSES)):
         for name in table:
             for n in range(0, (7 if tier == "quick" else 10)):
+                if tier == "quick" and name == "dynlen-field-varitem" and n > 4:
+                    continue  # 256 x 16 value-forks per item: thorough tier only
                 out.append({"id": f"compdec/{what}/{name}/len{n}", "harness": "compdec", "what": what,
                             "name": name, "mlen": n, "build": {"what": what, "name": name}})
     seen = set()
